@@ -86,7 +86,9 @@ def dstep (d : DSt) (line : String) : DSt × String :=
   match ws with
   | "cfg" :: _ =>
     ({ d with cfg := ⟨g "verifyOwnParts" != "0", g "guardNilLastCommit" != "0"⟩,
-              l := { d.l with tornOk := (g "walTornOk" != "0"), keepsProposer := (g "stateKeepsProposer" != "0") } }, "ok")
+              l := { d.l with tornOk := (g "walTornOk" != "0"), keepsProposer := (g "stateKeepsProposer" != "0"),
+                              rotationOk := (g "walRotationOk" != "0"),
+                              startMarkerOk := (g "walStartMarkerOk" != "0") } }, "ok")
   | "init" :: _ =>
     let powers := (g "powers").splitOn "," |>.filterMap String.toInt?
     let addrs := (g "addrs").splitOn "," |>.filterMap Hex.decode
@@ -94,7 +96,7 @@ def dstep (d : DSt) (line : String) : DSt × String :=
     let vs := ValSet.newValSet ValSet.repaired vals
     let n0 := Node.init d.cfg 1 vs (g "me").toNat? ((g "skip") == "1")
     let n := if (g "prefix").isEmpty then n0 else { n0 with ownPrefix := (g "prefix").toUTF8.toList }
-    finish { d with addrs := addrs, l := { d.l with n := n, snap := n, log := [], tornAt := none } }
+    finish { d with addrs := addrs, l := { d.l with n := n, snap := n, log := [], tornAt := none, marks := [⟨0, 1, 0⟩], nFiles := 1, headEmpty := false } }
   | "mkblock" :: nm :: _ =>
     let bh := (g "h").toInt?.getD d.n.height
     let n := { d.n with validTab := d.n.validTab ++ [(parseName nm, bh, g "valid" != "0")] }
@@ -126,6 +128,7 @@ def dstep (d : DSt) (line : String) : DSt × String :=
   | ["drain"] =>
     let (d, msgs) := drainAll d [] 200
     finish d (" ".intercalate msgs ++ " || ")
+  | ["rotate"] => ({ d with l := Wal.rotate d.l }, "ok")
   | ["votes"] => (d, showVotes d.n)
   | ["digest"] => finish d
   | ["proposer"] => (d, "proposer=" ++ (match proposerAddr d.n with | some a => Hex.encode a | none => "-"))
